@@ -143,11 +143,10 @@ Proof.
   cbn [app scan]. unfold is_inc in Ht. destruct (t_sym t); [discriminate| |]; apply IH; exact Hr.
 Qed.
 
-Lemma take_while_stop {A} (f : A -> bool) pre x post : forallb f pre = true -> f x = false -> take_while f (pre ++ x :: post) = pre.
+(* the positional split: dropping the not yet consumed token trees from the back leaves exactly the consumed ones *)
+Lemma dropping_back_app {A} (pre post : list A) : dropping_back (pre ++ post) (length post) = pre.
 Proof.
-  induction pre as [|a pre IH]; intros Hp Hx; cbn [app take_while].
-  - rewrite Hx. reflexivity.
-  - cbn in Hp. apply andb_prop in Hp as [Ha Hp]. rewrite Ha. f_equal. apply IH; assumption.
+  unfold dropping_back. rewrite app_length, Nat.add_sub. rewrite firstn_app, firstn_all, Nat.sub_diag. cbn. apply app_nil_r.
 Qed.
 
 Lemma no_inc_app a b : no_inc (a ++ b) = no_inc a && no_inc b.
@@ -157,72 +156,64 @@ Lemma count_includes_cons t ts : count_includes (t :: ts) = (if is_inc t then S 
 Proof. unfold count_includes. cbn [filter]. destruct (is_inc t); reflexivity. Qed.
 
 Lemma expand_paste_gen srcs : (forall p, no_inc (srcs p) = true) ->
-  forall ts done fuel, no_inc done = true -> spans_ok srcs done ts = true -> (count_includes ts < fuel)%nat ->
+  forall ts done fuel, no_inc done = true -> (count_includes ts < fuel)%nat ->
   expand fuel srcs (done ++ ts) = Some (done ++ paste srcs ts).
 Proof.
-  intros Hsrc. induction ts as [|t rest IH]; intros done fuel Hdone Hok Hfuel.
+  intros Hsrc. induction ts as [|t rest IH]; intros done fuel Hdone Hfuel.
   - destruct fuel as [|f]; [cbn in Hfuel; lia|]. cbn [expand]. unfold reinvoke, include_call.
     rewrite app_nil_r. rewrite (scan_no_inc _ _ Hdone). cbn. rewrite app_nil_r. reflexivity.
-  - rewrite count_includes_cons in Hfuel. cbn [spans_ok] in Hok. unfold is_inc in Hfuel.
+  - rewrite count_includes_cons in Hfuel. unfold is_inc in Hfuel.
     destruct (t_sym t) as [p|x|n] eqn:Et.
     + (* the first include of the stream *)
-      apply andb_prop in Hok as [Hspan Hok].
       destruct fuel as [|f]; [lia|]. cbn [expand]. unfold reinvoke, include_call.
       rewrite (scan_app _ _ _ Hdone). cbn [scan]. rewrite Et.
-      rewrite (take_while_stop _ done t rest Hspan) by (rewrite Nat.eqb_refl; reflexivity).
+      rewrite (dropping_back_app done (t :: rest)).
       replace (done ++ srcs p ++ rest) with ((done ++ srcs p) ++ rest) by (rewrite app_assoc; reflexivity).
       rewrite (IH (done ++ srcs p) f).
       * unfold paste. cbn [flat_map]. rewrite Et. rewrite <- !app_assoc. reflexivity.
       * rewrite no_inc_app, Hdone, Hsrc. reflexivity.
-      * exact Hok.
       * lia.
     + replace (done ++ t :: rest) with ((done ++ [t]) ++ rest) by (rewrite <- app_assoc; reflexivity).
       rewrite (IH (done ++ [t]) fuel).
       * unfold paste. cbn [flat_map]. rewrite Et. rewrite <- !app_assoc. reflexivity.
       * rewrite no_inc_app, Hdone. unfold no_inc, is_inc. cbn. rewrite Et. reflexivity.
-      * exact Hok.
       * exact Hfuel.
     + replace (done ++ t :: rest) with ((done ++ [t]) ++ rest) by (rewrite <- app_assoc; reflexivity).
       rewrite (IH (done ++ [t]) fuel).
       * unfold paste. cbn [flat_map]. rewrite Et. rewrite <- !app_assoc. reflexivity.
       * rewrite no_inc_app, Hdone. unfold no_inc, is_inc. cbn. rewrite Et. reflexivity.
-      * exact Hok.
       * exact Hfuel.
 Qed.
 
-(* outside the known class (an include keyword whose printed span also occurs on an earlier token) the chain of
-   macro invocations ends, after one invocation per include, on exactly the pasted text — for includes at any
-   position, any number of them, empty sources, adjacent includes *)
+(* for every token list — whatever its spans —, includes at any position, any number of them, empty sources, adjacent
+   includes: the chain of macro invocations ends, after one invocation per include, on exactly the pasted text *)
 Theorem include_is_splice srcs ts fuel :
   (forall p, no_inc (srcs p) = true) ->            (* ascent_source_impl rejects include_source! inside a source *)
-  known_c09_spans srcs ts = false ->
   (count_includes ts < fuel)%nat ->
   expand fuel srcs ts = Some (paste srcs ts).
-Proof.
-  intros Hsrc Hk Hf. unfold known_c09_spans in Hk. apply negb_false_iff in Hk.
-  exact (expand_paste_gen srcs Hsrc ts [] fuel eq_refl Hk Hf).
-Qed.
+Proof. intros Hsrc Hf. exact (expand_paste_gen srcs Hsrc ts [] fuel eq_refl Hf). Qed.
 
-(* the faithful model loses the tokens before the include when spans coincide (a program whose tokens all carry
-   one span, as produced by another procedural macro with quote!): reproduced on the real macro by the tie *)
 Definition tk (sp : nat) (s : sym) : tok := {| t_span := sp; t_site := 0; t_sym := s |}.
 Definition src_of (l : list tok) (p : nat) : list tok := match p with O => l | _ => [] end.
 
-Lemma include_refuted_equal_spans :
-  exists srcs ts r, (forall p, no_inc (srcs p) = true) /\ known_c09_spans srcs ts = true
-                    /\ expand 5 srcs ts = Some r /\ r <> paste srcs ts
-                    /\ r = srcs O ++ [tk 0 (TOther 3)].
+(* the defect repaired by /repo commit 9a74b6c, stated about the OLD span-based split: when all tokens print one span
+   (a program produced by another procedural macro with quote!) the tokens before the include were lost; the current
+   split gives the pasted text on the same input *)
+Lemma include_old_split_refuted_equal_spans :
+  exists srcs ts r, (forall p, no_inc (srcs p) = true)
+                    /\ expand_old 5 srcs ts = Some r /\ r <> paste srcs ts /\ r = srcs O ++ [tk 0 (TOther 3)]
+                    /\ expand 5 srcs ts = Some (paste srcs ts).
 Proof.
   exists (src_of [{| t_span := 7; t_site := 1; t_sym := TOther 9 |}]),
          [tk 0 (TOther 1); tk 0 (TOther 2); tk 0 (TInc 0); tk 0 (TOther 3)].
-  eexists. split; [intros [|p]; reflexivity|]. split; [vm_compute; reflexivity|].
-  split; [vm_compute; reflexivity|]. split; [vm_compute; discriminate | reflexivity].
+  eexists. split; [intros [|p]; reflexivity|].
+  split; [vm_compute; reflexivity|]. split; [vm_compute; discriminate|]. split; [reflexivity | vm_compute; reflexivity].
 Qed.
 
 (* hygiene: the tokens of a source keep the site of the generated macro_rules body, so a local variable captured by
    ascent_run! is visible to the pasted text but not to the included source *)
 Lemma include_hygiene_refuted :
-  exists srcs ts r, (forall p, no_inc (srcs p) = true) /\ known_c09_spans srcs ts = false
+  exists srcs ts r, (forall p, no_inc (srcs p) = true)
                     /\ locals_resolve (map at_call_site (paste srcs ts)) = true
                     /\ expand 5 srcs ts = Some r /\ locals_resolve r = false.
 Proof.
@@ -433,7 +424,7 @@ Example redecl_other_types_both_survive :
   length (fields_named 0 ds) = 2%nat.
 Proof. vm_compute. reflexivity. Qed.
 
-(* three includes (start, adjacent pair with an empty source, end) with pairwise distinct spans *)
+(* includes at the start, an adjacent pair with an empty source, at the end *)
 Example splice_example :
   let srcs := fun p => match p with
                        | 0%nat => [{| t_span := 100; t_site := 1; t_sym := TOther 10 |}; {| t_span := 101; t_site := 1; t_sym := TOther 11 |}]
@@ -441,7 +432,7 @@ Example splice_example :
                        | _ => [{| t_span := 120; t_site := 3; t_sym := TOther 12 |}]
                        end in
   let ts := [tk 1 (TInc 0); tk 2 (TOther 1); tk 3 (TInc 1); tk 4 (TInc 2); tk 5 (TOther 2); tk 6 (TInc 0)] in
-  known_c09_spans srcs ts = false /\ count_includes ts = 4%nat
+  count_includes ts = 4%nat
   /\ option_map (map t_span) (expand 5 srcs ts) = Some [100; 101; 2; 120; 5; 100; 101]%nat.
 Proof. vm_compute. repeat split. Qed.
 
